@@ -88,9 +88,16 @@ pub fn bitmask_word<D: std::fmt::Debug>(v: &D) -> u32 {
 }
 
 fn bitmask_word_opt<D: std::fmt::Debug>(v: &D) -> Option<u32> {
+    // only the exact shape of the derived output is trusted: `Name { data: <decimal> }`
     let s = format!("{:?}", v);
-    let i = s.find("data: ")?;
-    let digits: String = s[i + 6..].chars().take_while(|c| c.is_ascii_digit()).collect();
+    let open = s.find(" { data: ")?;
+    if !s[..open].chars().all(|c| c.is_ascii_alphanumeric()) || !s.ends_with(" }") {
+        return None;
+    }
+    let digits = &s[open + 9..s.len() - 2];
+    if digits.is_empty() || !digits.chars().all(|c| c.is_ascii_digit()) {
+        return None;
+    }
     digits.parse().ok()
 }
 
